@@ -6,7 +6,8 @@ from genlib import *
 LEAN_MODULES = ["MpirProofs.Props.C15_globals"]
 THEOREMS = ["Mpir.Gen.escaped_statics_harmless", "Mpir.Gen.documented_cells_writers", "Mpir.Gen.documented_cells_reach",
             "Mpir.Threads.interleaving_irrelevant_cells", "Mpir.Threads.read_shared_schedule_independent",
-            "Mpir.Threads.apiStep_preserves", "Mpir.Threads.api_readers_schedule_independent"]
+            "Mpir.Threads.apiStep_preserves", "Mpir.Threads.apiStep_respects", "Mpir.Threads.api_readers_schedule_independent",
+            "Mpir.Threads.api_schedule_independent"]
 GEN = [gen_globaluses.gen_globaluses]
 PINS = [("mp_set_fns.c", None), ("mp_get_fns.c", None), ("mpf/set_dfl_prec.c", None), ("mpf/get_dfl_prec.c", None),
         ("mpf/init.c", None), ("rands.c", None), ("errno.c", None), ("gmp-impl.h", "RANDS"), ("gmp-impl.h", "RANDS_CLEAR"),
